@@ -33,6 +33,11 @@ type KeyID string
 // SignJSON signs a JSON object returning a copy signed with the given key.
 // https://matrix.org/docs/spec/server_server/unstable.html#signing-json
 func SignJSON(signingName string, keyID KeyID, privateKey ed25519.PrivateKey, message []byte) (signed []byte, err error) {
+	// An object that repeats a member name means different things to different
+	// readers (first copy, last copy, both): there is no one value to sign.
+	if err = checkNoDuplicateKeys(message); err != nil {
+		return nil, err
+	}
 	// Existing signatures are carried over verbatim: they are not ours to decode.
 	// Only the members named exactly "signatures" and "unsigned" are special.
 	var preserve struct {
@@ -116,6 +121,12 @@ func ListKeyIDs(signingName string, message []byte) ([]KeyID, error) {
 
 // VerifyJSON checks that the entity has signed the message using a particular key.
 func VerifyJSON(signingName string, keyID KeyID, publicKey ed25519.PublicKey, message []byte) error {
+	// A repeated member name is not covered the way the signer meant it: the
+	// decoder below keeps the last copy only, so a copy inserted in front of a
+	// signed member would go unnoticed while other readers take it as the value.
+	if err := checkNoDuplicateKeys(message); err != nil {
+		return err
+	}
 	// Unpack the top-level key of the JSON object without unpacking the contents of the keys.
 	// This allows us to add and remove the top-level keys from the JSON object.
 	// It also ensures that the JSON is actually a valid JSON object.
